@@ -1314,6 +1314,41 @@ func (s *BlockAttrsSpec) decode(content *hcl.BodyContent, blockLabels []blockLab
 		vals[name] = attrVal
 	}
 
+	if !cty.CanMapVal(vals) {
+		// With a dynamically-typed element type the attribute values can
+		// have different types, so we must find a single element type for
+		// the map, as the block collection specs do for their elements.
+		names := make([]string, 0, len(vals))
+		etys := make([]cty.Type, 0, len(vals))
+		for name, v := range vals {
+			names = append(names, name)
+			etys = append(etys, v.Type())
+		}
+		ety, convs := convert.UnifyUnsafe(etys)
+		if ety != cty.NilType {
+			for i, name := range names {
+				if convs[i] == nil {
+					continue
+				}
+				newV, err := convs[i](vals[name])
+				if err != nil {
+					ety = cty.NilType
+					break
+				}
+				vals[name] = newV
+			}
+		}
+		if ety == cty.NilType || !cty.CanMapVal(vals) {
+			diags = append(diags, &hcl.Diagnostic{
+				Severity: hcl.DiagError,
+				Summary:  fmt.Sprintf("Inconsistent attribute types in %s block", s.TypeName),
+				Detail:   "All of the attributes in this block must have values of the same type.",
+				Subject:  &block.DefRange,
+			})
+			return cty.UnknownVal(cty.Map(s.ElementType)), diags
+		}
+	}
+
 	return cty.MapVal(vals), diags
 }
 
